@@ -64,6 +64,29 @@ def run(ctx):
         for p in g.behaviours():
             items.append({'part': 2, 'steps': [{'act': to_json(g.state(n)['act']), 'st': _st2(g.state(n))} for n in p[1:]]})
         del g
+    # part 3: dataset pickers
+    with tlc.Workdir() as wd:
+        dcfg = 'GEN_DataPickers_quick.cfg' if quick else 'GEN_DataPickers_thorough.cfg'
+        res, g = tlc.dump_graph(wd, 'MC_DataPickers.tla', dcfg, timeout=3000)
+        ctx.add_tlc('E0+E1 generation ' + dcfg, res, dcfg)
+        ditems = []
+        for p in g.behaviours():
+            steps = []
+            for n in p[1:]:
+                s = g.state(n)
+                coll = [str(x) for x in s['coll']]
+                steps.append({'act': to_json(s['act']), 'st': {'delay': s['delay'], 'cchoices': coll,
+                                                                 'mchoices': [str(x) for x in s['mdata'] if str(x) in coll],
+                                                                 'csel': str(s['csel']), 'msel': str(s['msel'])}})
+            ditems.append({'steps': steps})
+        del g
+    ctx.check_ops('DataPickers', ditems, ['Append', 'Remove', 'ManualAppend', 'ManualRemove', 'Relabel', 'SelectC', 'SelectM', 'DelayEnter', 'DelayExit'])
+    dres = core.sharded('harness.adapters.datapickers', 'replay_chunk', ditems)
+    ctx.add_replayed(len(ditems), sum(r['steps'] for r in dres), sum(1 for it in ditems if len(it['steps']) >= 3))
+    ctx.cov['datapicker_behaviours'] = len(ditems)
+    for r in dres:
+        for d in r['div']:
+            ctx.report(core.Divergence.from_json(d))
     ctx.check_ops('Viewer parts 1+2', items, ['Append', 'Remove', 'NewGroup', 'RemoveGroup', 'ViewerAddData', 'ViewerRemoveData',
                                               'SaveRestoreViewer', 'DelayEnter', 'DelayExit', 'NewAlone', 'DeleteAlone', 'RemoveLayer', 'AddSubsetLayer', 'PickerAddData', 'PickerRemoveData',
                                               'AttrAdd', 'AttrRemove', 'AttrReorder', 'SetFilter', 'Select'])
@@ -89,6 +112,15 @@ def replay(div):
     from harness.core import use_repo
     use_repo()
     b = div.behaviour
+    if b.get('spec') == 'DataPickers':
+        from harness.adapters import datapickers
+        r = datapickers.replay_one(b)
+        if r is None:
+            print('replay: behaviour conforms')
+            return 0
+        print('VIOLATION property=C18 replay=(given)')
+        print('  step %s %s: expected %s got %s' % (r[0], r[1], r[2], r[3]))
+        return 1
     r = A.replay_layers(b) if b['part'] == 1 else A.replay_picker(b)
     if r is None:
         print('replay: behaviour conforms')
